@@ -164,16 +164,24 @@ func (s *Set) SScan(cursor int64, match string, count int64) (int64, []string) {
 	if cursor >= int64(s.data.Len()) {
 		return 0, nil
 	}
+	// the cursor is the number of members the earlier calls have walked over
+	var i, next int64
 	s.data.Scan(func(member string, _ struct{}) bool {
-		if count > 0 && int64(len(keys)) >= count {
+		if i < cursor {
+			i++
+			return true
+		}
+		if count > 0 && i >= cursor+count {
+			next = i
 			return false
 		}
+		i++
 		if matched, err := filepath.Match(match, member); matched && err == nil {
 			keys = append(keys, member)
 		}
 		return true
 	})
-	return cursor, keys
+	return next, keys
 }
 
 // SRandMember gets a random member from the set.
